@@ -908,13 +908,13 @@ u_stubs! { fn c04_u_reply_header() {
 } }
 
 // ==== generated by tools/gen_e_be.py ====
-// @harness props=C01,C03,C04,C09 tier=quick reach=off timeout=400 bound="request 1 (GET_FEATURES), header flags 0x9 (version 1, NEED_REPLY), declared size = body size; body bytes, 0..=2 attached descriptors, three 64-bit negotiation words and handler outcome symbolic; one request" stubs="vmm-sys-util raw_recvmsg/raw_sendmsg (ghost stream socket), libc::close + OwnedFd::drop (ghost descriptor table), handle_alloc_error (assume false)"
+// @harness props=C01,C03,C04,C07,C09 tier=quick reach=off timeout=400 bound="request 1 (GET_FEATURES), header flags 0x9 (version 1, NEED_REPLY), declared size = body size; body bytes, 0..=2 attached descriptors, three 64-bit negotiation words and handler outcome symbolic; one request" stubs="vmm-sys-util raw_recvmsg/raw_sendmsg (ghost stream socket), libc::close + OwnedFd::drop (ghost descriptor table), handle_alloc_error (assume false)"
 e_be!(e_be_get_features_nr, 1, 0x9, 0, 0);
-// @harness props=C01,C03,C04,C09 tier=thorough reach=off timeout=400 bound="request 1 (GET_FEATURES), header flags 0x1 (version 1), declared size = body size; body bytes, 0..=2 attached descriptors, three 64-bit negotiation words and handler outcome symbolic; one request" stubs="vmm-sys-util raw_recvmsg/raw_sendmsg (ghost stream socket), libc::close + OwnedFd::drop (ghost descriptor table), handle_alloc_error (assume false)"
+// @harness props=C01,C03,C04,C07,C09 tier=thorough reach=off timeout=400 bound="request 1 (GET_FEATURES), header flags 0x1 (version 1), declared size = body size; body bytes, 0..=2 attached descriptors, three 64-bit negotiation words and handler outcome symbolic; one request" stubs="vmm-sys-util raw_recvmsg/raw_sendmsg (ghost stream socket), libc::close + OwnedFd::drop (ghost descriptor table), handle_alloc_error (assume false)"
 e_be!(e_be_get_features_plain, 1, 0x1, 0, 0);
-// @harness props=C01,C02,C03,C04 tier=quick reach=off timeout=400 bound="request 2 (SET_FEATURES), header flags 0x9 (version 1, NEED_REPLY), declared size = body size; body bytes, 0..=2 attached descriptors, three 64-bit negotiation words and handler outcome symbolic; one request" stubs="vmm-sys-util raw_recvmsg/raw_sendmsg (ghost stream socket), libc::close + OwnedFd::drop (ghost descriptor table), handle_alloc_error (assume false)"
+// @harness props=C01,C02,C03,C04,C07 tier=quick reach=off timeout=400 bound="request 2 (SET_FEATURES), header flags 0x9 (version 1, NEED_REPLY), declared size = body size; body bytes, 0..=2 attached descriptors, three 64-bit negotiation words and handler outcome symbolic; one request" stubs="vmm-sys-util raw_recvmsg/raw_sendmsg (ghost stream socket), libc::close + OwnedFd::drop (ghost descriptor table), handle_alloc_error (assume false)"
 e_be!(e_be_set_features_nr, 2, 0x9, 0, 0);
-// @harness props=C01,C02,C03,C04 tier=quick reach=off timeout=400 bound="request 2 (SET_FEATURES), header flags 0x1 (version 1), declared size = body size; body bytes, 0..=2 attached descriptors, three 64-bit negotiation words and handler outcome symbolic; one request" stubs="vmm-sys-util raw_recvmsg/raw_sendmsg (ghost stream socket), libc::close + OwnedFd::drop (ghost descriptor table), handle_alloc_error (assume false)"
+// @harness props=C01,C02,C03,C04,C07 tier=quick reach=off timeout=400 bound="request 2 (SET_FEATURES), header flags 0x1 (version 1), declared size = body size; body bytes, 0..=2 attached descriptors, three 64-bit negotiation words and handler outcome symbolic; one request" stubs="vmm-sys-util raw_recvmsg/raw_sendmsg (ghost stream socket), libc::close + OwnedFd::drop (ghost descriptor table), handle_alloc_error (assume false)"
 e_be!(e_be_set_features_plain, 2, 0x1, 0, 0);
 // @harness props=C01,C03,C04 tier=quick thorough_for=C01 reach=off timeout=400 bound="request 3 (SET_OWNER), header flags 0x9 (version 1, NEED_REPLY), declared size = body size; body bytes, 0..=2 attached descriptors, three 64-bit negotiation words and handler outcome symbolic; one request" stubs="vmm-sys-util raw_recvmsg/raw_sendmsg (ghost stream socket), libc::close + OwnedFd::drop (ghost descriptor table), handle_alloc_error (assume false)"
 e_be!(e_be_set_owner_nr, 3, 0x9, 0, 0);
@@ -968,9 +968,9 @@ e_be!(e_be_set_vring_err_plain, 14, 0x1, 0, 0);
 e_be!(e_be_get_protocol_features_nr, 15, 0x9, 0, 0);
 // @harness props=C01,C03,C04,C07 tier=thorough reach=off timeout=400 bound="request 15 (GET_PROTOCOL_FEATURES), header flags 0x1 (version 1), declared size = body size; body bytes, 0..=2 attached descriptors, three 64-bit negotiation words and handler outcome symbolic; one request" stubs="vmm-sys-util raw_recvmsg/raw_sendmsg (ghost stream socket), libc::close + OwnedFd::drop (ghost descriptor table), handle_alloc_error (assume false)"
 e_be!(e_be_get_protocol_features_plain, 15, 0x1, 0, 0);
-// @harness props=C01,C02,C04 tier=quick thorough_for=C01 reach=off timeout=400 bound="request 16 (SET_PROTOCOL_FEATURES), header flags 0x9 (version 1, NEED_REPLY), declared size = body size; body bytes, 0..=2 attached descriptors, three 64-bit negotiation words and handler outcome symbolic; one request" stubs="vmm-sys-util raw_recvmsg/raw_sendmsg (ghost stream socket), libc::close + OwnedFd::drop (ghost descriptor table), handle_alloc_error (assume false)"
+// @harness props=C01,C02,C04,C07 tier=quick thorough_for=C01 reach=off timeout=400 bound="request 16 (SET_PROTOCOL_FEATURES), header flags 0x9 (version 1, NEED_REPLY), declared size = body size; body bytes, 0..=2 attached descriptors, three 64-bit negotiation words and handler outcome symbolic; one request" stubs="vmm-sys-util raw_recvmsg/raw_sendmsg (ghost stream socket), libc::close + OwnedFd::drop (ghost descriptor table), handle_alloc_error (assume false)"
 e_be!(e_be_set_protocol_features_nr, 16, 0x9, 0, 0);
-// @harness props=C01,C02,C04 tier=quick reach=off timeout=400 bound="request 16 (SET_PROTOCOL_FEATURES), header flags 0x1 (version 1), declared size = body size; body bytes, 0..=2 attached descriptors, three 64-bit negotiation words and handler outcome symbolic; one request" stubs="vmm-sys-util raw_recvmsg/raw_sendmsg (ghost stream socket), libc::close + OwnedFd::drop (ghost descriptor table), handle_alloc_error (assume false)"
+// @harness props=C01,C02,C04,C07 tier=quick reach=off timeout=400 bound="request 16 (SET_PROTOCOL_FEATURES), header flags 0x1 (version 1), declared size = body size; body bytes, 0..=2 attached descriptors, three 64-bit negotiation words and handler outcome symbolic; one request" stubs="vmm-sys-util raw_recvmsg/raw_sendmsg (ghost stream socket), libc::close + OwnedFd::drop (ghost descriptor table), handle_alloc_error (assume false)"
 e_be!(e_be_set_protocol_features_plain, 16, 0x1, 0, 0);
 // @harness props=C01,C03,C04,C07 tier=quick thorough_for=C04 reach=off timeout=400 bound="request 17 (GET_QUEUE_NUM), header flags 0x9 (version 1, NEED_REPLY), declared size = body size; body bytes, 0..=2 attached descriptors, three 64-bit negotiation words and handler outcome symbolic; one request" stubs="vmm-sys-util raw_recvmsg/raw_sendmsg (ghost stream socket), libc::close + OwnedFd::drop (ghost descriptor table), handle_alloc_error (assume false)"
 e_be!(e_be_get_queue_num_nr, 17, 0x9, 0, 0);
